@@ -487,8 +487,8 @@ theorem setND_frame (hl : Lawful o ph WF) (a : α) (n m : Nuc) (v : Rat) (hwf : 
     o.nd (o.setND a n v) m = o.nd a m :=
   hl.set_frame a n v m hwf hm
 
-/-- **`setMass(n, m)` reads back `m`** (the mass-carrying volume is the object's own volume; for a
-component that is: the parent block is not cut by symmetry lines) -/
+/-- **`setMass(n, m)` reads back `m`** at every composite level (the mass-carrying volume is the object's own
+volume: `block_evol_eq_vol`; assemblies: equal block areas). Components: `comp_setMass_readback`. -/
 theorem setMass_readback (hl : Lawful o ph WF) (a : α) (n : Nuc) (m : Rat) (hwf : WF a)
     (hn : o.has a n = true) (hcan : canSetMass o ph a n m = true) (hev : o.evol a = o.vol a)
     (hK : ph.K ≠ 0) (hA : ph.aw n ≠ 0) (hV : o.vol a ≠ 0) :
@@ -530,16 +530,47 @@ theorem setND_volume (hl : Lawful o ph WF) (a : α) (n : Nuc) (v : Rat) :
 
 end Derived
 
-/-- the component-level read-back fails exactly by the parent's symmetry factor (finding
-component-setmass-symmetry-cut-block): `setMass(n, m)` on a component reads back `m / psym` -/
-theorem comp_setMass_reads_back_over_sym (ph : Phys) (c : Comp) (n : Nuc) (m : Rat)
-    (hK : ph.K ≠ 0) (hA : ph.aw n ≠ 0) (hV : c.vol ≠ 0) :
-    (compOps ph).mass (setMass (compOps ph) ph c n m) n = m / c.psym := by
-  simp only [setMass, compOps, Comp.mass, NDens.update, List.foldl, calculateNumberDensity]
+/-- **component level: `setMass(n, m)` reads back `m`** whatever the parent block's symmetry factor
+(`Component.setMass` scales the request by it, `Component.getMass` divides by it) -/
+theorem comp_setMass_readback (ph : Phys) (c : Comp) (n : Nuc) (m : Rat)
+    (hK : ph.K ≠ 0) (hA : ph.aw n ≠ 0) (hV : c.vol ≠ 0) (hs : c.psym ≠ 0) :
+    (compOps ph).mass (c.setMass ph n m) n = m := by
+  simp only [Comp.setMass, setMass, compOps, Comp.mass, NDens.update, List.foldl, calculateNumberDensity]
   rw [get_set_self]
-  by_cases hp : c.psym = 0
-  · simp [hp]
-  · field_simp; ring
+  field_simp
+  ring
+
+/-- **component level: `addMass(n, m)` adds exactly `m`** (and `removeMass` removes it) -/
+theorem comp_addMass_readback (ph : Phys) (c : Comp) (n : Nuc) (m : Rat)
+    (hK : ph.K ≠ 0) (hA : ph.aw n ≠ 0) (hV : c.vol ≠ 0) (hs : c.psym ≠ 0) :
+    (compOps ph).mass (c.addMass ph n m) n = (compOps ph).mass c n + m := by
+  simp only [Comp.addMass, addMass, compOps, Comp.mass, NDens.update, List.foldl, calculateNumberDensity]
+  rw [get_set_self]
+  field_simp
+  ring
+
+/-- component level: mass = `Component.density()` × volume / parent symmetry factor, for every component that
+has at least one nuclide entry (all-zero compositions included) -/
+theorem comp_mass_eq_density_volume (ph : Phys) (md : Rat) (void : Bool) (c : Comp) (h : c.nd ≠ []) :
+    massTotal (compOps ph) c = Comp.density ph md void c * (c.vol / c.psym) := by
+  have he : c.nd.isEmpty = false := by cases hc : c.nd with
+    | nil => exact absurd hc h
+    | cons _ _ => rfl
+  unfold Comp.density
+  simp only [he, Bool.false_and, Bool.false_eq_true, if_false]
+  unfold massTotal density
+  rw [← sumBy_mul_const]; apply sumBy_congr; intro n _
+  simp only [compOps, Comp.mass]; ring
+
+/-- the excluded point (finding component-density-empty-composition-reports-material-density): a component with
+no nuclides and a non-void material has mass 0 but reports the material's density -/
+theorem comp_empty_density_is_material (ph : Phys) (md : Rat) (c : Comp) (h : c.nd = []) :
+    massTotal (compOps ph) c = 0 ∧ Comp.density ph md false c = md := by
+  unfold Comp.density massTotal
+  simp [h, compOps, NDens.keys, sumBy]
+
+example : (compOps ⟨2, 1, fun _ => 10⟩).mass ((⟨6, 3, [(1, 2)]⟩ : Comp).setMass ⟨2, 1, fun _ => 10⟩ 1 100) 1 = 100 :=
+  comp_setMass_readback _ _ _ _ (by norm_num) (by norm_num) (by norm_num) (by norm_num)
 
 /-! ### densityTools: mass fractions and the conversions -/
 
